@@ -44,23 +44,23 @@ META = {
     'C11': ('other', 'linear normal-form equivalence of can_put/can_get/occupancy with the store predicates; dominance of ready-list append by the item own delay timer',
             'can_put ≡ grant predicate, can_get ≡ |RG| < |A|, occupancy ≡ Σ held, ready append dominated by the timer of that item, delay drawn once.',
             'DESIGN.md §4 C11'),
-    'C12': ('other', 'control dependence of the belt put-grant on the spacing test against the last entered item; normal form of the travel-delay formula; two-phase wait shape',
+    'C12': ('other', 'control / data dependence of the belt put-grant on the entry time of the last entered item and the pace of the belt (dependence closure of opaque values); normalised product form of the travel delay; symbolic sum of the timed waits on undisturbed paths',
             'ONLY the structural clauses of C12: the spacing gate exists and refers to the last entered item (and an empty belt admits one entry per instant), the travel '
             'delay follows the documented formula, is stamped, stored with the item, identical for all items and waited in two phases that add up to it. '
             'Order of exit, actual spacing and travel times under interrupts are real-valued timer arithmetic and are NOT decided (see DESIGN.md §6).',
             'DESIGN.md §4 C12, §6'),
-    'C13': ('other', 'wait-without-signal scan, interrupt/resume handler shape, state-transition coverage, who-may-interrupt',
+    'C13': ('other', 'wait-without-signal scan; path rule with a symbolic clock: after an Interrupt the next travel wait lasts d − (t1 − t0) and follows a resume wait; truth-table check of the state dispatch; value/atom based accumulation gate; who-may-interrupt; sibling agreement of the stall-delay conversion',
             'Structural necessary conditions of stall handling; kinematics are not decided.', 'DESIGN.md §4 C13'),
-    'C14': ('other', 'control dependence of the capacity trigger, activation wait-set shape, two transit timeouts dominate the move, alias analysis of the batch iterable',
+    'C14': ('other', 'control dependence of the capacity trigger, activation wait-set shape, two transit timeouts dominate the move, alias analysis of the batch iterable, batch fixed before the transit waits',
             'Structural necessary conditions of batch delivery; batch boundaries in time are not decided.', 'DESIGN.md §4 C14'),
     'C15': ('other', 'selector-call counting per path, recorded-vs-used index data flow, range-check dominance, generator update normal form',
             'Selector consulted once per item, recorded index = used index, range check dominates use, round-robin successor is (i+1) mod n.',
             'DESIGN.md §4 C15'),
     'C16': ('other', 'loop-bound flow recipe → reservations, counted drain loop invariant, pallet-last emission order',
             'Recipe count = reservation count = add_item count; pallet from edge 0; splitter drains then emits the pallet last.', 'DESIGN.md §4 C16'),
-    'C17': ('other', 'accumulate-then-switch shape, single writer of state, stamp-before-first-wait path rule, partition check of the Machine state groups',
+    'C17': ('other', 'symbolic effect of the accounting functions (bucket[old state] += now − old stamp; tracked cells), single writer of state, stamp-before-first-wait path rule, path-wise partition check of the Machine state groups over sign classes, thread-state typestate (refresh after change, BLOCKED before a wait for room)',
             'Structural necessary conditions of state-time accounting; equality with time actually spent is not decided.', 'DESIGN.md §4 C17'),
-    'C18': ('other', 'level-updater pairing after every net occupancy change, integrand ≡ Σ held, counter/event pairing, timestamp sources',
+    'C18': ('other', 'level-updater pairing after every net occupancy change; polynomial identity of the updater effect (W\' = W + N·(now − T), T\' = now, N\' = Σ held); counter/event pairing; timestamp sources',
             'Structural necessary conditions of truthful statistics; numerical equality with the true integral is not decided.', 'DESIGN.md §4 C18'),
     'C19': ('other', 'forbidden-construct / taint scan (set iteration, id/hash ordering, unseeded entropy, wall clock, kernel clock writes) with canaries',
             'Absence of the constructs that make runs irreproducible; run-to-run equality itself is not decided.', 'DESIGN.md §4 C19'),
@@ -68,7 +68,7 @@ META = {
             'Structural necessary conditions of crash/livelock freedom; absence of all run-time exceptions is not decided.', 'DESIGN.md §4 C20'),
 }
 
-NOTE = ('Trusted base: CPython ast; SimPy 4.1 kernel semantics (cooperative processes, succeed() raises if already triggered); list.sort stability; '
+NOTE = ('All rules run on the package after a semantics-preserving normalisation (fsa/normalise.py, DESIGN §3.2a). Trusted base: CPython ast; SimPy 4.1 kernel semantics (cooperative processes, succeed() raises if already triggered); list.sort stability; '
         'the fsa engine itself (firing/silent variants in the thorough tier). Static analysis only: nothing in a check imports or runs FactorySimPy.')
 
 NA = {}
